@@ -3,7 +3,7 @@
    scalar operation num_op, every column length and every operand; laws of the
    specification (pointwise, shape, operand order, text concatenation, NaN). *)
 From Coq Require Import ZArith List Bool String Lia.
-From DM Require Import Base.PyVal Spec.Nf Spec.Arith Gen.KCheck Gen.KArith Model.Store Model.Arith Proofs.NfFacts.
+From DM Require Import Base.PyVal Base.CsvPy Spec.Nf Spec.Arith Gen.KCheck Gen.KArith Gen.KCsv Model.Store Model.Arith Proofs.NfFacts.
 Import ListNotations.
 Open Scope Z_scope.
 
@@ -248,13 +248,33 @@ Section Facts.
   Qed.
 
   (* ---------- L1 = L0 on the cells *)
-  Lemma safe_decode_text v : safe_decode fstr v = text_of v.
+  (* py3compat.safe_decode as regenerated from /repo (Gen/KCsv.v), applied to a cell, never fails and yields the
+     specified text: an int with all its digits, an integral float as that int, nan / inf / -inf, str(float) otherwise *)
+  Lemma safe_decode_kernel_text v : pyv_text (k_safe_decode fstr (pyv_of_val v)) = Ok (text_of v).
   Proof.
     destruct v as [z | f | s | ]; try reflexivity.
-    destruct f as [| neg | neg | neg m e]; try reflexivity.
-    cbn -[fl_trunc num_eqb fl_integral]. unfold py_eq. cbn -[fl_trunc num_eqb fl_integral].
+    destruct f as [| neg | neg | neg m e]; try reflexivity; try (destruct neg; reflexivity).
+    unfold k_safe_decode, pyv_of_val, text_of.
+    cbn -[fl_trunc num_eqb fl_integral show_int dec]. unfold py_eq. cbn -[fl_trunc num_eqb fl_integral show_int dec].
     rewrite trunc_eq_integral. destruct (fl_integral (FFin neg m e)); reflexivity.
   Qed.
+
+  (* the text of a number: every decimal digit of an int (no detour through a float), an integral float as the int
+     of the same value, the three non-finite floats by name *)
+  Lemma text_of_numbers :
+    (forall z, text_of (VInt z) = DecimalString.NilZero.string_of_int (Z.to_int z)) /\
+    (forall f, fl_is_finite f && fl_integral f = true -> text_of (VFlt f) = text_of (VInt (fl_trunc f))) /\
+    (forall f, fl_is_finite f = true -> fl_integral f = false -> text_of (VFlt f) = fstr f) /\
+    text_of (VFlt FNan) = "nan"%string /\ text_of (VFlt (FInf false)) = "inf"%string /\
+    text_of (VFlt (FInf true)) = "-inf"%string.
+  Proof.
+    repeat split; try reflexivity.
+    - intros f H. cbn [Spec.Arith.text_of]. rewrite H. reflexivity.
+    - intros f H1 H2. cbn [Spec.Arith.text_of]. rewrite H1, H2. destruct f; try discriminate; reflexivity.
+  Qed.
+
+  Lemma safe_decode_text v : safe_decode fstr v = text_of v.
+  Proof. unfold safe_decode. rewrite safe_decode_kernel_text. reflexivity. Qed.
 
   Hypothesis mul_comm : forall a b, num_op OMul a b = num_op OMul b a.
 
